@@ -570,6 +570,14 @@ func toForStmt(forPos token.Pos, value ast.Expr, body *ast.BlockStmt, re *ast.Ra
 			List: []ast.Stmt{condStmt},
 		}
 	}
+	// the loop runs while the variable is before the end in the direction of the step:
+	// a negative literal step counts down (as the range iterator used by comprehensions does)
+	var loopCond ast.Expr = &ast.BinaryExpr{X: value, OpPos: re.To, Op: token.LSS, Y: cond}
+	if u, ok := re.Expr3.(*ast.UnaryExpr); ok && u.Op == token.SUB {
+		if _, isLit := u.X.(*ast.BasicLit); isLit { // start:end:-N
+			loopCond = &ast.BinaryExpr{X: value, OpPos: re.To, Op: token.GTR, Y: cond}
+		}
+	}
 	return &ast.ForStmt{
 		For: forPos,
 		Init: &ast.AssignStmt{
@@ -578,12 +586,7 @@ func toForStmt(forPos token.Pos, value ast.Expr, body *ast.BlockStmt, re *ast.Ra
 			Tok:    tok,
 			Rhs:    initRhs,
 		},
-		Cond: &ast.BinaryExpr{
-			X:     value,
-			OpPos: re.To,
-			Op:    token.LSS,
-			Y:     cond,
-		},
+		Cond: loopCond,
 		Post: &ast.AssignStmt{
 			Lhs:    []ast.Expr{value},
 			TokPos: re.Colon2,
